@@ -206,6 +206,30 @@ func genBatchFacts() {
 	}
 	_ = psF
 
+	// ---- account.ValidateVersion: the known account versions; max account lifetime
+	if fd := findFunc(acctF, "ValidateVersion"); fd == nil {
+		fail("ValidateVersion not found")
+	} else {
+		var vs []string
+		for _, c := range switchCases(fd, "version") {
+			ret := firstReturn(c.Body)
+			if len(c.List) == 0 {
+				if len(ret) != 1 || ret[0] == "nil" {
+					fail("ValidateVersion: default case no longer returns an error")
+				}
+				continue
+			}
+			if len(ret) != 1 || ret[0] != "nil" {
+				fail("ValidateVersion: listed case no longer returns nil")
+			}
+			for _, e := range c.List {
+				vs = append(vs, intConst(acct, "account", lastIdent(exprString(e))))
+			}
+		}
+		l.p("def validAccountVersions : List Nat := [%s]", strings.Join(vs, ", "))
+	}
+	l.p("def maxAccountExpiry : Nat := %s", intConst(acct, "account", "maxAccountExpiry"))
+
 	// ---- AccountDiff.validateEndingState: ending-state sets
 	if fd := findFunc(orderF, "AccountDiff.validateEndingState"); fd == nil {
 		fail("validateEndingState not found")
